@@ -16,6 +16,9 @@ pub fn subst_rule() {
     assert!(same::<DeserType<'static, G2<Vec<u16>, u32>>, G2<&'static [u16], u32>>(), "[C05/subst.param] a parameter that is the type of a field is replaced by its eps-copy type");
     assert!(same::<DeserType<'static, G2<String, Vec<Vec<u8>>>>, G2<&'static str, Vec<&'static [u8]>>>(), "[C05/subst.param] a parameter that is the type of a field is replaced by its eps-copy type");
     assert!(same::<DeserType<'static, GE<Vec<u32>>>, GE<&'static [u32]>>(), "[C05/subst.param.enum] parameters of enum variant fields are substituted");
+    assert!(same::<DeserType<'static, GT<Vec<u32>>>, GT<&'static [u32]>>(), "[C05/subst.param.enum.tuple] a parameter that is the type of a tuple-variant field is substituted");
+    assert!(same::<DeserType<'static, GS<Vec<u32>>>, GS<&'static [u32]>>(), "[C05/subst.param.enum.struct] a parameter that is the type of a struct-variant field is substituted");
+    assert!(same::<DeserType<'static, GTS<Vec<u32>, u16>>, GTS<&'static [u32], u16>>(), "[C05/subst.param.tuple] a parameter that is the type of a tuple-struct field is substituted (other fields mentioning it are fully copied)");
     // a parameter that is merely mentioned keeps its type (field fully deserialized)
     assert!(same::<DeserType<'static, GM<u16>>, GM<u16>>(), "[C05/subst.mention] a field whose type merely mentions a parameter keeps its type");
     // ... also when the definition comes out of a macro (the field type is a `ty` fragment)
